@@ -63,7 +63,7 @@ theorem pack_existing_setup {w : WM} {iss : List Handle} {s : WS} (hi : Inv ⟨w
   rw [bodyState_init] at hbf
   refine ⟨?_, hbf.2, ?_⟩
   · rw [applyPack_eq, hstart]
-    simp only [hfc, Bool.false_eq_true, if_false, hcm]
+    simp only [hfc, Bool.false_eq_true, if_false, packInit_existing]
     rw [hbf.1]
   · have hp0 := pinv_init_existing info (deps := w.deps) (k := k) hrel.1 hplen hpm hcl
     have hsp0 : SpecPackInv info w.deps ent.comps (w.arch pi).mask k ent.shared { final := (w.arch pi).mask } s [] := by
